@@ -152,7 +152,15 @@ Proof.
   pose proof (step_valid (n_c n) e (proj1 (HI id n G))) as Hv.
   destruct (MonitoredList.o_err (snd (MonitoredList.step (n_c n) e))); [exact HI|].
   match goal with |- Inv _ (fst (?m h)) => assert (Hp : pres I m) end.
-  { apply pres_bind; [apply pres_w_contents; exact Hv|]. intros _. destruct (nk n); pres_tac. }
+  { apply pres_bind; [apply pres_w_contents|intros _; destruct (nk n); pres_tac].
+    destruct (is_simple_walker n); [|exact Hv].
+    pose proof (MonitoredListProofs.valid_focus_nonneg _ (proj1 (HI id n G))) as Hnn.
+    unfold simple_walker_state. set (its := MonitoredList.items (fst (MonitoredList.step (n_c n) e))).
+    destruct its as [|x r] eqn:Ei.
+    - left. cbn [MonitoredList.items MonitoredList.focus_raw]. split; [reflexivity|].
+      change (zlen (@nil Z)) with 0. destruct (0 <=? MonitoredList.focus_raw (n_c n)) eqn:E; lia.
+    - right. cbn [MonitoredList.items MonitoredList.focus_raw]. pose proof (zlen_nonneg r). rewrite zlen_cons in *.
+      destruct (1 + zlen r <=? MonitoredList.focus_raw (n_c n)) eqn:E; lia. }
   exact (Hp h HI).
 Qed.
 
